@@ -47,8 +47,9 @@ for f in kf:
     if f.get("kind") == "known":
         print(f"| {f['property']} | {f['id']} | {f['what'][:300]} |")
 print("\n### 9.4 Seeded changes and which check reports them\n")
-print("| seeded change | what it does | what it needs to manifest | reported by | first miss → strengthening |")
-print("|---|---|---|---|---|")
+print("Column *suite*: `yes` = the coordinator ran the repository's whole suite on /repo HEAD + this patch (tools/confirm_suite.sh, verdict in\n`seeded/<id>/confirm.log`): all 26 623 stable tests pass; `agent` = so far only the seeding agent's own runs (listed in meta.json `tests_run`:\nthe full test_tensordict.py plus the files relevant to the patch) — the coordinator re-ran the demonstration clean / patched for every change.\n")
+print("| seeded change | what it does | what it needs to manifest | reported by | suite | first miss → strengthening |")
+print("|---|---|---|---|---|---|")
 for d in sorted(glob.glob("seeded/*/")):
     sid = os.path.basename(d.rstrip("/"))
     try:
@@ -59,4 +60,4 @@ for d in sorted(glob.glob("seeded/*/")):
     if os.path.exists(d + "detect.log"):
         t = open(d + "detect.log").read()
         det = f"./check {sid.split('-')[0]} quick: " + (f"{t.count('VIOLATION property')} VIOLATION line(s)" if "VIOLATION property" in t else "NOT reported")
-    print(f"| {sid} | {str(m.get('summary',''))[:220]} | {str(m.get('needs',''))[:220]} | {det} | {m.get('strengthening','')} |")
+    print(f"| {sid} | {str(m.get('summary',''))[:220]} | {str(m.get('needs',''))[:220]} | {det} | {'yes' if m.get('suite_confirmed') else 'agent'} | {m.get('strengthening','')} |")
